@@ -83,20 +83,25 @@ def manager_sym():
         kind, val, reg = p.value
         kinds.add(kind)
         notes = [x for x in p.log if x[0].startswith("search-")]
+        present = z3.Bool("eq!r_k!c")           # "some entry of the table equals the capture" (the fact a search decides)
         if kind == "ret":
-            ok = len(notes) == 1 and notes[0][0] == "search-found" and isinstance(val, pyvc.SymInt)
+            # the value must come from a search for the LEAST matching index (loop or list.index), whatever guards precede it
+            ok = [n_[0] for n_ in notes if n_[0] == "search-found"] == ["search-found"] and isinstance(val, pyvc.SymInt)
             obs.append(simple_ob(base + ":POST-first", CM + ".get_capture_index", "POST",
                                  "a value is returned only for the LEAST index k whose entry equals the capture (search-loop rule: no earlier entry matched)",
                                  ok, P, detail=repr(notes), witness=repr(notes)))
+            obs.append(z3_ob(base + ":POST-present", CM + ".get_capture_index", "POST", "a value is returned only when some entry equals the capture",
+                             p.pc, present, P))
             if ok:
                 obs.append(z3_ob(base + ":POST-index", CM + ".get_capture_index", "POST", "the value returned is k + 1 (group numbers are 1-based)",
                                  p.pc, val.t == z3.Int("first!refs") + 1, P))
             obs.append(simple_ob(base + ":POST-registered", CM + ".capture_is_registered", "POST", "capture_is_registered is True exactly when an entry equals the capture",
                                  reg is True, P, detail=repr(reg), witness=repr(reg)))
         else:
-            ok = len(notes) == 1 and notes[0][0] == "search-none"
-            obs.append(simple_ob(base + ":EXC-absent", CM + ".get_capture_index", "EXC", "ValueError is raised exactly when no entry equals the capture",
-                                 ok and reg is False, P, detail=repr((notes, reg)), witness=repr(reg)))
+            obs.append(z3_ob(base + ":EXC-absent", CM + ".get_capture_index", "EXC", "ValueError is raised exactly when no entry equals the capture",
+                             p.pc, z3.Not(present), P))
+            obs.append(simple_ob(base + ":POST-unregistered", CM + ".capture_is_registered", "POST",
+                                 "capture_is_registered is False exactly when no entry equals the capture", reg is False, P, detail=repr(reg), witness=repr(reg)))
     obs.append(simple_ob("CapturesManager:any-length:COVER", CM, "POST", "both outcomes explored (vacuity guard)", kinds == {"ret", "raise"}, P, detail=repr(kinds)))
     # add_capture appends at the end (registration order = list order)
     m = J.cm.CapturesManager()
